@@ -300,9 +300,9 @@ func wantsRefusal(e *Edge, name string) bool {
 	case "NewSession":
 		return c.A == "nsfail"
 	case "Mail":
-		return c.C == "MAIL" && c.A == "rej"
+		return c.C == "MAIL" && (c.A == "rej" || c.A == "rej5")
 	case "Rcpt":
-		return c.C == "RCPT" && c.A == "rej"
+		return c.C == "RCPT" && (c.A == "rej" || c.A == "rej5")
 	}
 	return false
 }
